@@ -23,8 +23,10 @@ def demo_cmd(seed, tree, out):
     cands = [l.strip() for l in notes.split('\n') if re.search(r'(g\+\+|clang\+\+(-14)?)\s', l) and 'demo' in l and '-I' in l]
     flags = []; cxx = 'g++'
     if cands:
-        l = cands[0]; l = l.split('&&')[0]
-        m = re.search(r'(g\+\+|clang\+\+-14|clang\+\+)', l); cxx = m.group(1)
+        l = cands[0]; segs = [x for x in l.split('&&') if re.search(r'(g\+\+|clang\+\+)', x) and 'demo' in x]; l = segs[0] if segs else l
+        m = re.search(r'(g\+\+|clang\+\+-14|clang\+\+)', l)
+        if m is None: m = re.search(r'', l)
+        else: cxx = m.group(1)
         if cxx == 'clang++': cxx = 'clang++-14'
         for tok in l[m.end():].split():
             if re.fullmatch(r'-(D\w+(=[\w.]+)?|m[a-z0-9][\w.=-]*|f[a-z][\w=,-]*[a-z0-9]|std=[\w+]+|O[0-3s]|pthread)', tok): flags.append(tok)
